@@ -616,3 +616,295 @@ Proof.
     cbn [app]. rewrite app_nil_r. apply IH.
     apply NoDup_app_r in Hnd'. now apply NoDup_app_l in Hnd'.
 Qed.
+
+(* ====================================================================== as_dict *)
+Definition conv (fuel : nat) (es : list lentry) (ke : list Z * lentry) : res (list Z * tree) :=
+  let (k, e) := ke in
+  if l_isnode e then do cs <- as_dict fuel es (l_id e); Ok (k, Node cs)
+  else do v <- l_val e; Ok (k, Leaf v).
+
+Lemma as_dict_S fuel es pid : as_dict (S fuel) es pid = mapM (conv fuel es) (dict_of (kidsf es pid)).
+Proof. reflexivity. Qed.
+
+Definition sib_rel (a b : list Z * tree) : Prop := fst a = fst b /\ tree_equiv (snd a) (snd b).
+
+(* Theorem A: if, for the root and for every node n of the forest, the entries of es whose
+   parent is n are (in any order) n's children, then as_dict returns the forest *)
+Theorem as_dict_sound fuel : forall es G pid,
+  Permutation (kidsf es pid) (map (top pid) G) ->
+  (forall n, insideF n G -> at_payload n = PNode ->
+             Permutation (kidsf es (at_id n)) (map (top (at_id n)) (at_kids n))) ->
+  NoDup (map at_key G) ->
+  (forall n, insideF n G -> at_payload n = PNode -> NoDup (map at_key (at_kids n))) ->
+  (forest_depth G < fuel)%nat ->
+  exists r, as_dict fuel es pid = Ok r /\ tree_equiv (Node r) (Node (map erase G)).
+Proof.
+  induction fuel as [|fuel IHf]; intros es G pid Hroot Hin Hkeys Hkin Hd; [lia|].
+  rewrite as_dict_S.
+  assert (Hk : NoDup (map l_key (kidsf es pid))).
+  { apply (Permutation_NoDup (l := map at_key G)); [|exact Hkeys].
+    apply Permutation_sym. replace (map at_key G) with (map l_key (map (top pid) G)).
+    - apply Permutation_map, Hroot.
+    - rewrite map_map. reflexivity. }
+  rewrite (dict_of_nodup _ Hk).
+  assert (Hall : forall G', incl G' G ->
+            exists r0, mapM (conv fuel es) (map (fun e => (l_key e, e)) (map (top pid) G')) = Ok r0 /\
+                       Forall2 sib_rel r0 (map erase G')).
+  { induction G' as [|a G' IHG]; intros Hincl.
+    - exists []. split; [reflexivity|constructor].
+    - assert (Ha : In a G) by (apply Hincl; now left).
+      destruct (IHG (fun x Hx => Hincl x (or_intror Hx))) as (r' & Hr' & HF').
+      cbn [map mapM]. rewrite Hr'.
+      destruct a as [i k pl cs]. destruct pl as [|v].
+      + (* node *)
+        destruct (IHf es cs i) as (ra & Hra & Hea).
+        * apply (Hin (AT i k PNode cs)); [exists (AT i k PNode cs); split; [exact Ha|constructor]|reflexivity].
+        * intros n (c & Hc & Hnc) Hp. apply Hin; [|exact Hp].
+          exists (AT i k PNode cs). split; [exact Ha|]. eapply ins_kid; [exact Hc|exact Hnc].
+        * apply (Hkin (AT i k PNode cs)); [exists (AT i k PNode cs); split; [exact Ha|constructor]|reflexivity].
+        * intros n (c & Hc & Hnc) Hp. apply Hkin; [|exact Hp].
+          exists (AT i k PNode cs). split; [exact Ha|]. eapply ins_kid; [exact Hc|exact Hnc].
+        * pose proof (depth_le _ _ Ha) as Hle. cbn [depth] in Hle. fold (forest_depth cs) in Hle. lia.
+        * cbn [conv top l_key l_isnode l_id at_key at_id at_payload]. rewrite Hra. cbn [bind].
+          eexists. split; [reflexivity|]. constructor; [|exact HF'].
+          split; [reflexivity|]. cbn [snd erase]. exact Hea.
+      + cbn [conv top l_key l_isnode l_val at_key at_payload bind].
+        eexists. split; [reflexivity|]. constructor; [|exact HF'].
+        split; [reflexivity|]. cbn [snd erase]. constructor. }
+  destruct (Hall G (incl_refl G)) as (r0 & Hr0 & HF0).
+  destruct (mapM_perm (conv fuel es) _ (map (fun e => (l_key e, e)) (kidsf es pid))
+              (Permutation_map _ (Permutation_sym Hroot)) r0 Hr0) as (r & Hr & Hp).
+  exists r. split; [exact Hr|].
+  apply (te_node r r0 (map erase G)); [apply Permutation_sym, Hp|exact HF0].
+Qed.
+
+Lemma keys_unique_inside n a :
+  inside n a -> keys_unique a -> NoDup (map at_key (at_kids n)).
+Proof.
+  induction 1 as [a|n c a Hc _ IH]; intros Hk; destruct a as [i k pl cs]; cbn [keys_unique at_kids] in *.
+  - tauto.
+  - destruct Hk as [_ Hk]. apply fold_and_Forall in Hk. rewrite Forall_forall in Hk. apply IH, Hk, Hc.
+Qed.
+
+(* Theorem A + B: every permutation of the entries a tree stores, under any assignment of pairwise
+   different identities, links back to the tree *)
+Theorem link_entries_roundtrip F es :
+  Permutation es (flat_forest root_id F) ->
+  NoDup (root_id :: flat_map aids F) ->
+  forest_keys_unique F ->
+  exists r, as_dict (S (length es)) es root_id = Ok r /\ tree_equiv (Node r) (Node (map erase F)).
+Proof.
+  intros Hperm Hnd [Hk0 Hk].
+  set (a0 := AT root_id [] PNode F).
+  assert (Hkids : forall n, inside n a0 ->
+            Permutation (kidsf es (at_id n)) (map (top (at_id n)) (at_kids n))).
+  { intros n Hn. rewrite <- (kids_of_inside n a0 Hn Hnd). cbn [at_id at_kids a0].
+    apply Permutation_filter, Hperm. }
+  assert (Hup : forall n, insideF n F -> inside n a0).
+  { intros n (a & Ha & Hna). eapply ins_kid; [exact Ha|exact Hna]. }
+  apply as_dict_sound.
+  - apply (Hkids a0). constructor.
+  - intros n Hn _. apply Hkids, Hup, Hn.
+  - exact Hk0.
+  - intros n (a & Ha & Hna) _. apply fold_and_Forall in Hk. rewrite Forall_forall in Hk.
+    eapply keys_unique_inside; [exact Hna|apply Hk, Ha].
+  - rewrite (Permutation_length Hperm).
+    (* the depth of a forest is at most the number of entries it stores *)
+    assert (Hdepth : forall G p, (forest_depth G <= length (flat_forest p G))%nat).
+    { assert (Hd1 : forall a p, (depth a <= length (flat p a))%nat).
+      { induction a as [i k pl cs IH] using atree_ind'. intros p. cbn [flat length].
+        destruct pl; cbn [depth]; [|lia].
+        apply le_n_S. induction IH as [|c cs Hc _ IHcs]; [cbn; lia|].
+        cbn [fold_right flat_map]. rewrite app_length. specialize (Hc i). lia. }
+      induction G as [|a G IHG]; intros p; [cbn; lia|].
+      cbn [forest_depth fold_right flat_forest flat_map]. rewrite app_length.
+      specialize (Hd1 a p). specialize (IHG p). unfold forest_depth, flat_forest in IHG. lia. }
+    specialize (Hdepth F root_id). lia.
+Qed.
+
+(* ====================================================================== link on key tables *)
+Lemma flat_par a : forall p e, In e (flat p a) -> l_par e = p \/ In (l_par e) (aids a).
+Proof.
+  induction a as [i k pl cs IH] using atree_ind'. intros p e. cbn [flat aids at_id at_kids].
+  intros [<-|Hin]; [now left|]. right. apply in_flat_map in Hin. destruct Hin as (c & Hc & Hec).
+  rewrite Forall_forall in IH. destruct (IH c Hc i e Hec) as [->|Hd]; [now left|].
+  right. apply in_flat_map. eauto.
+Qed.
+
+Lemma assoc_z_nodup {A} (ts : list (Z * A)) k v : NoDup (map fst ts) -> In (k, v) ts -> assoc_z ts k = Some v.
+Proof.
+  induction ts as [|[k' v'] ts IH]; intros Hnd Hin; [contradiction|].
+  cbn [map fst] in Hnd. inversion Hnd as [|? ? Hn Hnd']; subst. cbn [assoc_z].
+  destruct Hin as [[= -> ->]|Hin]; [now rewrite Z.eqb_refl|].
+  destruct (Z.eqb_spec k' k) as [->|]; [|auto].
+  exfalso. apply Hn. change k with (fst (k, v)). now apply in_map.
+Qed.
+
+Lemma find_not_none {A} (g : A -> bool) l x : In x l -> g x = true -> find g l <> None.
+Proof. intros Hin Hg Hn. pose proof (find_none g l Hn x Hin). congruence. Qed.
+
+Theorem link_roundtrip ts F :
+  tables_wf ts ->
+  Permutation (live_entries ts) (flat_forest root_id F) ->
+  NoDup (root_id :: flat_map aids F) ->
+  forest_keys_unique F ->
+  exists t, link ts = Ok t /\ tree_equiv t (Node (map erase F)).
+Proof.
+  intros [Hnd Hidx] Hperm Hids Hkeys. unfold link.
+  assert (Hchk : forallb (link_check ts) (live_entries ts) = true).
+  { apply forallb_forall. intros e He. unfold link_check.
+    assert (Hef : In e (flat_forest root_id F)) by (eapply Permutation_in; eassumption).
+    unfold flat_forest in Hef. apply in_flat_map in Hef. destruct Hef as (a & Ha & Hea).
+    assert (Hok : l_keyok e = true).
+    { clear - Hea. revert Hea. generalize root_id as p. induction a as [i k pl cs IH] using atree_ind'.
+      intros p. cbn [flat]. intros [<-|Hin]; [reflexivity|].
+      apply in_flat_map in Hin. destruct Hin as (c & Hc & Hec). rewrite Forall_forall in IH. eauto. }
+    rewrite Hok. cbn [andb].
+    destruct (flat_par a root_id e Hea) as [->|Hp]; [reflexivity|].
+    (* the parent is a stored entry, hence present in its table *)
+    assert (Hpin : In (l_par e) (map l_id (flat_forest root_id F))).
+    { rewrite ids_flat_forest. apply in_flat_map. eauto. }
+    apply in_map_iff in Hpin. destruct Hpin as (e' & He' & Hin').
+    apply (Permutation_in _ (Permutation_sym Hperm)) in Hin'.
+    unfold live_entries in Hin'. apply filter_In in Hin'. destruct Hin' as [Hin' _].
+    apply in_concat in Hin'. destruct Hin' as (l & Hl & Hel).
+    apply in_map_iff in Hl. destruct Hl as ([idx l'] & Heq & Hts). cbn [snd] in Heq. subst l'.
+    pose proof (Hidx idx l e' Hts Hel) as Hi.
+    unfold lookup_id. rewrite <- He', Hi, (assoc_z_nodup ts idx l Hnd Hts).
+    destruct (find (fun e0 => snd (l_id e0) =? snd (l_id e')) l) eqn:Hf.
+    - apply orb_true_r.
+    - exfalso. apply (find_not_none _ l e' Hel (Z.eqb_refl _) Hf). }
+  rewrite Hchk.
+  destruct (link_entries_roundtrip F (live_entries ts) Hperm Hids Hkeys) as (r & -> & Hr).
+  cbn [bind]. eauto.
+Qed.
+
+(* ---------- free entries are ignored ---------- *)
+Lemma live_strip ts : live_entries (strip_free ts) = live_entries ts.
+Proof.
+  unfold live_entries, strip_free. induction ts as [|[i l] ts IH]; [reflexivity|].
+  cbn [map concat snd fst]. rewrite !filter_app, IH. f_equal.
+  induction l as [|e l IHl]; [reflexivity|]. cbn [filter]. destruct (negb (l_free e)) eqn:E; cbn [filter]; rewrite ?E, IHl; reflexivity.
+Qed.
+
+Lemma assoc_strip ts k :
+  assoc_z (strip_free ts) k = option_map (filter (fun e => negb (l_free e))) (assoc_z ts k).
+Proof.
+  induction ts as [|[i l] ts IH]; [reflexivity|]. cbn [strip_free map assoc_z fst snd].
+  destruct (i =? k); [reflexivity|exact IH].
+Qed.
+
+Theorem free_ignored ts t : link (strip_free ts) = Ok t -> link ts = Ok t.
+Proof.
+  unfold link. rewrite live_strip.
+  destruct (forallb (link_check (strip_free ts)) (live_entries ts)) eqn:Hs; [|discriminate].
+  assert (Hc : forallb (link_check ts) (live_entries ts) = true).
+  { rewrite forallb_forall in *. intros e He. specialize (Hs e He). unfold link_check in *.
+    apply andb_true_iff in Hs. destruct Hs as [-> Hs]. cbn [andb].
+    apply orb_true_iff in Hs. destruct Hs as [->|Hs]; [reflexivity|].
+    apply orb_true_iff. right. unfold lookup_id in *. rewrite assoc_strip in Hs.
+    destruct (assoc_z ts (fst (l_par e))) as [l|]; [|discriminate]. cbn [option_map] in Hs.
+    destruct (find _ (filter _ l)) as [x|] eqn:Hf; [|discriminate].
+    apply find_some in Hf. destruct Hf as [Hin Hx]. apply filter_In in Hin.
+    destruct (find (fun e0 => snd (l_id e0) =? snd (l_par e)) l) eqn:Hf'; [reflexivity|].
+    exfalso. apply (find_not_none _ l x (proj1 Hin) Hx Hf'). }
+  now rewrite Hc.
+Qed.
+
+(* ====================================================================== the active header / key table *)
+Theorem active_header_max h1 h2 :
+  h_seq (active_header h1 h2) = Z.max (h_seq h1) (h_seq h2) /\
+  (h_seq h2 < h_seq h1 -> active_header h1 h2 = h1) /\ (h_seq h1 < h_seq h2 -> active_header h1 h2 = h2).
+Proof.
+  unfold active_header, active_is_first. destruct (Z.gtb_spec (h_seq h1) (h_seq h2)); repeat split; intros; lia || reflexivity.
+Qed.
+
+Lemma insert_seq_in t l x : In x (insert_seq t l) <-> x = t \/ In x l.
+Proof.
+  induction l as [|h r IH]; cbn [insert_seq In]; [intuition|].
+  destruct (kt_seq t <=? kt_seq h); cbn [In]; [rewrite IH|]; intuition.
+Qed.
+
+Definition head_max (l : list ktable) : Prop :=
+  match l with [] => False | h :: r => forall x, In x r -> kt_seq x <= kt_seq h end.
+
+Lemma insert_seq_head_max t l : (l = [] \/ head_max l) -> head_max (insert_seq t l).
+Proof.
+  destruct l as [|h r]; intros Hm; [cbn; contradiction|]. destruct Hm as [|Hm]; [discriminate|].
+  cbn [insert_seq]. destruct (Z.leb_spec (kt_seq t) (kt_seq h)); cbn [head_max] in *.
+  - intros x Hx. apply insert_seq_in in Hx. destruct Hx as [->|Hx]; [lia|auto].
+  - intros x [->|Hx]; [lia|]. specialize (Hm x Hx). lia.
+Qed.
+
+Lemma rget_register t reg idx :
+  assoc_z (register t reg) idx =
+  if idx =? kt_index t
+  then Some (insert_seq t (match assoc_z reg idx with Some l => l | None => [] end))
+  else assoc_z reg idx.
+Proof.
+  induction reg as [|[i l] reg IH].
+  - cbn [register assoc_z insert_seq]. rewrite (Z.eqb_sym (kt_index t) idx). destruct (idx =? kt_index t); reflexivity.
+  - cbn [register]. destruct (Z.eqb_spec i (kt_index t)) as [->|Hne]; cbn [assoc_z].
+    + rewrite (Z.eqb_sym (kt_index t) idx). destruct (idx =? kt_index t); reflexivity.
+    + destruct (Z.eqb_spec i idx) as [->|Hni].
+      * destruct (Z.eqb_spec idx (kt_index t)); [contradiction|reflexivity].
+      * exact IH.
+Qed.
+
+Lemma keys_register t reg :
+  map fst (register t reg) = map fst reg \/
+  (~ In (kt_index t) (map fst reg) /\ map fst (register t reg) = map fst reg ++ [kt_index t]).
+Proof.
+  induction reg as [|[i l] reg IH]; cbn [register map fst].
+  - right. split; [intros []|reflexivity].
+  - destruct (Z.eqb_spec i (kt_index t)) as [->|Hne]; cbn [map fst]; [now left|].
+    destruct IH as [->|[Hn ->]]; [now left|right]. split; [|reflexivity].
+    cbn [In]. intros [|]; [congruence|contradiction].
+Qed.
+
+Definition reg_inv (reg : list (Z * list ktable)) (seen : list ktable) : Prop :=
+  NoDup (map fst reg) /\
+  forall idx, match assoc_z reg idx with
+              | None => forall x, In x seen -> kt_index x <> idx
+              | Some l => head_max l /\ forall x, In x l <-> In x seen /\ kt_index x = idx
+              end.
+
+Lemma register_inv t reg seen : reg_inv reg seen -> reg_inv (register t reg) (seen ++ [t]).
+Proof.
+  intros [Hnd Hget]. split.
+  - destruct (keys_register t reg) as [->|[Hn ->]]; [exact Hnd|].
+    apply NoDup_rev in Hnd. rewrite <- (rev_involutive (map fst reg ++ [kt_index t])). apply NoDup_rev.
+    rewrite rev_app_distr. cbn [rev app]. constructor; [|exact Hnd]. now rewrite <- in_rev.
+  - intros idx. rewrite rget_register. specialize (Hget idx).
+    destruct (Z.eqb_spec idx (kt_index t)) as [->|Hne].
+    + destruct (assoc_z reg (kt_index t)) as [l|].
+      * destruct Hget as [Hm Hmem]. split; [apply insert_seq_head_max; now right|].
+        intros x. rewrite insert_seq_in, Hmem, in_app_iff. cbn [In]. intuition (subst; auto).
+      * split; [cbn; intros x []|]. intros x. cbn [insert_seq In]. rewrite in_app_iff. cbn [In].
+        split; [intros [<-|[]]; auto|]. intros [[Hx|[<-|[]]] Hi]; [destruct (Hget x Hx Hi)|now left].
+    + destruct (assoc_z reg idx) as [l|].
+      * destruct Hget as [Hm Hmem]. split; [exact Hm|]. intros x. rewrite Hmem, in_app_iff. cbn [In].
+        intuition (subst; congruence).
+      * intros x Hx. apply in_app_iff in Hx. destruct Hx as [Hx|[<-|[]]]; [auto|congruence].
+Qed.
+
+(* among the key tables sharing an index the one with the highest sequence number is used,
+   whatever the order in which the tables are met *)
+Theorem active_key_table ts idx l :
+  In (idx, l) (registry ts) ->
+  exists h r, l = h :: r /\ In h ts /\ kt_index h = idx /\
+              forall x, In x ts -> kt_index x = idx -> kt_seq x <= kt_seq h.
+Proof.
+  assert (Hgen : forall ts reg seen, reg_inv reg seen ->
+            reg_inv (fold_left (fun reg t => register t reg) ts reg) (seen ++ ts)).
+  { induction ts0 as [|t ts0 IH]; intros reg seen Hinv; [now rewrite app_nil_r|].
+    cbn [fold_left]. replace (seen ++ t :: ts0) with ((seen ++ [t]) ++ ts0) by (rewrite <- app_assoc; reflexivity).
+    apply IH, register_inv, Hinv. }
+  assert (H0 : reg_inv [] []) by (split; [constructor|intros i x []]).
+  specialize (Hgen ts [] [] H0). cbn [app] in Hgen. fold (registry ts) in Hgen.
+  destruct Hgen as [Hnd Hget]. intros Hin. specialize (Hget idx).
+  rewrite (assoc_z_nodup _ idx l Hnd Hin) in Hget. destruct Hget as [Hm Hmem].
+  destruct l as [|h r]; [contradiction|]. exists h, r. split; [reflexivity|].
+  destruct (proj1 (Hmem h) (or_introl eq_refl)) as [Hh Hi]. repeat split; try assumption.
+  intros x Hx Hxi. destruct (proj2 (Hmem x) (conj Hx Hxi)) as [->|Hr]; [lia|]. apply Hm, Hr.
+Qed.
